@@ -324,7 +324,7 @@ impl Ctx {
     }
 
     fn record_violation(&self, sub: &str, case: J, failure: Failure) {
-        let dir = format!("{VERIF_DIR}/replays/{}", self.prop);
+        let dir = format!("{VERIF_DIR}/replays{}/{}", scratch_suffix(), self.prop);
         let _ = std::fs::create_dir_all(&dir);
         let h = hash_of(&case.to_string());
         let path = format!("{dir}/{sub}-{:012x}.json", h & 0xffff_ffff_ffff);
@@ -702,8 +702,8 @@ impl Ctx {
             "wall_s": wall,
             "violations": viol.len(),
         });
-        let _ = std::fs::create_dir_all(format!("{VERIF_DIR}/evidence"));
-        let path = format!("{VERIF_DIR}/evidence/{}.json", self.prop);
+        let _ = std::fs::create_dir_all(format!("{VERIF_DIR}/evidence{}", scratch_suffix()));
+        let path = format!("{VERIF_DIR}/evidence{}/{}.json", scratch_suffix(), self.prop);
         std::fs::write(&path, serde_json::to_string_pretty(&ev).unwrap()).expect("write evidence");
         println!(
             "property={} tier={:?} seed={} evaluations={} distinct_nontrivial={} excluded_known={} violations={} wall_s={:.1}",
@@ -724,6 +724,12 @@ impl Ctx {
             0
         }
     }
+}
+
+/// When VERIF_SCRATCH is set (sensitivity runs against a deliberately broken tree), replay and
+/// evidence files go to sibling scratch directories so that the committed ones are not touched.
+pub fn scratch_suffix() -> &'static str {
+    if std::env::var("VERIF_SCRATCH").is_ok() { ".scratch" } else { "" }
 }
 
 /// Helper for shrinking-friendly index mapping.
